@@ -296,6 +296,14 @@ def ob_float_literal_text(r, tier, seed):
                 if not isinstance(v, float): raise Unsupported('to_string of a symbolic f64')
                 return mkstr(rust_f64_display(v))
             return m_f64_to_string
+        if g.endswith('<f32 as ToString>::to_string') or g.endswith('f32 as std::string::ToString>::to_string'):
+            def m_f32_to_string(ex, f_, a):
+                v = a[0]
+                while isinstance(v, Ref): v = v.get()
+                if not isinstance(v, float): raise Unsupported('to_string of a symbolic f32')
+                import numpy as _np      # Rust's Display for f32: the shortest digits that round-trip as float32, positional notation
+                return mkstr(_np.format_float_positional(_np.float32(v), unique=True, trim='-'))
+            return m_f32_to_string
         if g.endswith('RcDoc::text') or g.endswith('::text'):
             def m_text(ex, f_, a):
                 v = ex.deref(a[0]) if not isinstance(a[0], Str) else a[0]
